@@ -1,0 +1,53 @@
+//! Verification facade (feature `verif-hooks`) over the crate-private inbound packet filter.
+
+use super::filter::{Filter, FilterConfig};
+use crate::{node_info::NodeAddress, packet::Packet, socket::RateLimiter, ProtocolIdentity};
+use enr::NodeId;
+use std::{net::SocketAddr, time::Duration};
+
+/// The real `Filter`, drivable stage by stage.
+pub struct FilterFacade {
+    filter: Filter,
+    dummy: Packet,
+}
+
+impl FilterFacade {
+    pub fn new(
+        enabled: bool,
+        rate_limiter: Option<RateLimiter>,
+        max_nodes_per_ip: Option<usize>,
+        max_bans_per_ip: Option<usize>,
+        ban_duration: Option<Duration>,
+    ) -> Self {
+        let config = FilterConfig {
+            enabled,
+            rate_limiter,
+            max_nodes_per_ip,
+            max_bans_per_ip,
+        };
+        FilterFacade {
+            filter: Filter::new(config, ban_duration),
+            dummy: Packet::new_random(&NodeId::new(&[0u8; 32]), ProtocolIdentity::default())
+                .expect("random packet"),
+        }
+    }
+
+    /// IP stage (before decoding).
+    pub fn initial_pass(&mut self, src: &SocketAddr) -> bool {
+        self.filter.initial_pass(src)
+    }
+
+    /// Node stage (after decoding).
+    pub fn final_pass(&mut self, node_id: NodeId, socket_addr: SocketAddr) -> bool {
+        let node_address = NodeAddress {
+            socket_addr,
+            node_id,
+        };
+        self.filter.final_pass(&node_address, &self.dummy)
+    }
+
+    /// The periodic prune tick of the receive task.
+    pub fn prune_limiter(&mut self) {
+        self.filter.prune_limiter()
+    }
+}
